@@ -4,10 +4,16 @@ operation a block '== n echo -> outcome' + canonical state lines.  This module s
 outputs and reports, per script, the first differing step and state component."""
 import subprocess, os, time
 
-def split_scripts(text):
-    """-> {name: [block, ...]}, block = list of lines starting with '== ' (or '!! CRASH')"""
+def split_scripts(text, oracle_out=None):
+    """-> {name: [block, ...]}, block = list of lines starting with '== ' (or '!! CRASH').
+    Lines '!O <property> <message>' (impl-side oracle reports) are diverted to oracle_out."""
     scripts, cur, blk, name = {}, None, None, None
     for ln in text.split("\n"):
+        if ln.startswith("!O "):
+            if oracle_out is not None and cur is not None:
+                parts = ln.split(" ", 2)
+                oracle_out.append({"script": name, "step": len(cur), "oracle": parts[1], "what": parts[2] if len(parts) > 2 else ""})
+            continue
         if ln.startswith("####"):
             name = ln[4:].strip()
             cur = []
@@ -76,7 +82,8 @@ def lockstep(impl_cmd, model_cmd, script_file, timeout=600):
     io, ie, mo, me, irc, mrc, wall = run_both(impl_cmd, model_cmd, script_file, timeout)
     if mrc != 0:
         raise RuntimeError("model driver failed: " + me[-2000:])
-    si, sm = split_scripts(io), split_scripts(mo)
+    ofails = []
+    si, sm = split_scripts(io, ofails), split_scripts(mo)
     divs = []
     steps = 0
     outcomes = {"Ok": 0, "Rejected": 0, "Unresolvable": 0}
@@ -94,7 +101,7 @@ def lockstep(impl_cmd, model_cmd, script_file, timeout=600):
     for name in si:
         if name not in sm:
             divs.append(Divergence(name, 0, "missing", "<script only on impl side>", "", ""))
-    return divs, {"scripts": len(sm), "steps": steps, "outcomes": outcomes, "ops": ops, "wall_s": wall,
+    return divs, {"scripts": len(sm), "steps": steps, "outcomes": outcomes, "ops": ops, "wall_s": wall, "oracle_fails": ofails,
                   "impl_stderr_tail": ie[-3000:], "model_out": mo, "impl_out": io}
 
 def extract_script(script_file, name):
